@@ -14,6 +14,8 @@ model = {
                           "t": "" | "n" | "s" | "str" | "inlineStr" | "b" | "e",      # "" = attribute absent
                           "hv": bool, "v": str,            # <v> present, its text
                           "his": bool, "isr": {"rich": bool, "runs": [str]},          # <is> present: <t> or <r><t>..
+                                                            # (optional "sp": bool on a string item overrides where
+                                                            #  xml:space="preserve" is written on its <t> elements)
                           "s": int,                         # style index, -1 = attribute absent
                           "f": {"k": "none" | "normal" | "shared" | "array",
                                 "si": int, "ht": bool, "text": str, "ref": str}} ],
@@ -89,8 +91,9 @@ def ind(opts, depth):
     return ("\n" + "  " * depth) if opts.get("indent") else ""
 
 
-def t_elem(text, opts):
-    sp = (opts.get("spall") or (text != "" and (text[0] in WS or text[-1] in WS))) and not opts.get("nosp")
+def t_elem(text, opts, sp=None):
+    if sp is None:
+        sp = (opts.get("spall") or (text != "" and (text[0] in WS or text[-1] in WS))) and not opts.get("nosp")
     a = ' xml:space="preserve"' if sp else ""
     return "<t%s>%s</t>" % (a, esc(text, opts["ent"], False, opts.get("rawcr", False)))
 
@@ -102,9 +105,9 @@ def rst_body(item, opts, depth=0):
         parts = []
         for i, run in enumerate(item["runs"]):
             rpr = (i2 + "<rPr><b/><sz val=\"11\"/><rFont val=\"Calibri\"/></rPr>") if i % 2 == 0 else ""
-            parts.append("%s<r>%s%s%s%s</r>" % (i1, rpr, i2, t_elem(run, opts), i1))
+            parts.append("%s<r>%s%s%s%s</r>" % (i1, rpr, i2, t_elem(run, opts, item.get("sp")), i1))
         return "".join(parts) + i0
-    return i1 + t_elem(item["runs"][0] if item["runs"] else "", opts) + i0
+    return i1 + t_elem(item["runs"][0] if item["runs"] else "", opts, item.get("sp")) + i0
 
 
 def cell_xml(c, opts):
